@@ -45,6 +45,7 @@ type plan struct {
 	GapUs      int     `json:"gap_us"`
 	Yield      int     `json:"yield_level"`
 	Proto848   bool    `json:"kip848"`
+	CancelP    float64 `json:"abandon_async_commit_p"` // async commits whose context is cancelled a few ms after issue
 }
 
 type arrival struct {
@@ -281,6 +282,13 @@ func run(p plan, watchdog time.Duration) (arr []arrival, iss []*issued, final ma
 			mu.Unlock()
 		default:
 			is.API = "CommitOffsets"
+			if rng.Float64() < p.CancelP {
+				// the application abandons this commit shortly after issuing it (possibly while it
+				// is still queued behind an earlier one); later commits must still not overtake
+				// earlier ones
+				is.API = "CommitOffsets(abandoned)"
+				time.AfterFunc(time.Duration(rng.IntN(25))*time.Millisecond, cancel)
+			}
 			wg.Add(1)
 			cl.CommitOffsets(ctx, m, func(c *kgo.Client, req *kmsg.OffsetCommitRequest, resp *kmsg.OffsetCommitResponse, err error) {
 				onDone(c, req, resp, err)
@@ -377,12 +385,52 @@ func judge(r *vh.Run, p plan, mode string, arr []arrival, iss []*issued, final, 
 			}
 		}
 	}
-	for part, want := range last {
-		if got, ok := final[part]; !ok || got != want {
-			r.Violation("final-committed-offset-differs-from-last-successful-commit", wit(fmt.Sprintf("partition %d: coordinator has %d (commit #%d), last successful commit was #%d", part, got, got-base, want-base)))
+	// A commit whose context ended (or whose connection died) may still have been applied by the
+	// coordinator without the client learning it: if such a LATER commit was seen arriving and was
+	// let through, its value is an acceptable final value too.
+	lastIdx := map[int32]int{}
+	for _, is := range iss {
+		if is.Done && is.Err == "" {
+			for _, part := range is.Parts {
+				if is.PartOK[part] {
+					lastIdx[part] = is.Idx
+				}
+			}
 		}
-		if got, ok := clientView[part]; ok && got != want && got >= base {
-			r.Violation("CommittedOffsets-differs-from-last-successful-commit", wit(fmt.Sprintf("partition %d: CommittedOffsets()=%d (commit #%d), last successful commit was #%d", part, got, got-base, want-base)))
+	}
+	// (An abandoned commit that the coordinator had parked - the injected delay - is applied when
+	// the delay ends, possibly after later commits: cancelling an in-flight commit gives up its
+	// ordering, which is why the client itself never cancels a prior commit. So any unconfirmed
+	// commit that was let through is acceptable as the final value, whatever its index.)
+	unconfirmed := map[int]bool{}
+	for _, is := range iss {
+		if !is.Done || is.Err != "" {
+			unconfirmed[is.Idx] = true
+		}
+	}
+	passedLater := map[int32]map[int64]bool{}
+	for _, a := range arr {
+		if a.Action == "pass" || a.Action == "delay" {
+			if idx := int(a.Offset - base); idx > lastIdx[a.Part] || unconfirmed[idx] {
+				if passedLater[a.Part] == nil {
+					passedLater[a.Part] = map[int64]bool{}
+				}
+				passedLater[a.Part][a.Offset] = true
+			}
+		}
+	}
+	for part, want := range last {
+		got, ok := final[part]
+		if !ok || (got != want && !passedLater[part][got]) {
+			r.Violation("final-committed-offset-differs-from-last-successful-commit", wit(fmt.Sprintf("partition %d: coordinator has %d (commit #%d), last successful commit was #%d and no later unconfirmed commit with that value was let through", part, got, got-base, want-base)))
+		}
+		// CommittedOffsets is only tracked for partitions the member owns; with a second member
+		// joining and leaving, ownership (and the view) comes and goes, so the client view is
+		// judged only in scenarios without rebalances.
+		if p.Rebalances == 0 {
+			if cv, ok := clientView[part]; ok && cv != want && cv >= base {
+				r.Violation("CommittedOffsets-differs-from-last-successful-commit", wit(fmt.Sprintf("partition %d: CommittedOffsets()=%d (commit #%d), last successful commit was #%d", part, cv, cv-base, want-base)))
+			}
 		}
 	}
 	r.Count("commit_arrivals", len(arr))
@@ -409,7 +457,7 @@ func judge(r *vh.Run, p plan, mode string, arr []arrival, iss []*issued, final, 
 func gen(rng *rand.Rand, seed uint64, vt bool) plan {
 	p := plan{Seed: seed, VT: vt, Partitions: 1 + rng.IntN(4), Commits: 30 + rng.IntN(70),
 		DelayP: []float64{0, 0.1, 0.3}[rng.IntN(3)], ErrP: []float64{0, 0.1, 0.25}[rng.IntN(3)], PartErrP: []float64{0, 0.05}[rng.IntN(2)],
-		Rebalances: []int{0, 0, 2, 5}[rng.IntN(4)], GapUs: []int{0, 300, 3000}[rng.IntN(3)], Yield: []int{0, 30, 70}[rng.IntN(3)], Proto848: rng.IntN(4) == 0}
+		Rebalances: []int{0, 0, 2, 5}[rng.IntN(4)], GapUs: []int{0, 300, 3000}[rng.IntN(3)], Yield: []int{0, 30, 70}[rng.IntN(3)], Proto848: rng.IntN(4) == 0, CancelP: []float64{0, 0.1, 0.3}[rng.IntN(3)]}
 	if vt {
 		p.Yield = 0
 	}
